@@ -245,3 +245,11 @@ func seq(n int) []int {
 	}
 	return o
 }
+
+// rare draws an event of probability about 1/n. rapid's integer generators
+// favour small and boundary values, so "IntRange(0, n-1) == 0" is far more
+// likely than 1/n; a drawn 64-bit value is mixed first.
+func rare(t *rapid.T, label string, n int) bool {
+	x := rapid.Uint64().Draw(t, label)
+	return ((x+0x9E37)*0x9E3779B97F4A7C15>>33)%uint64(n) == 0
+}
